@@ -328,6 +328,19 @@ OPAQUE_REQS = [
 
 
 # ---------------------------------------------------------------- scenarios
+def deepen(rng, profile, tier):
+    """Thorough tier: half of the runs use longer histories (3x the requests per connection) and a third
+    of them more connections (up to 6); the quick tier keeps the many-short-runs profile as it is."""
+    if tier == 'quick':
+        return profile
+    prof = dict(profile)
+    if rng.random() < 0.5:
+        prof['max_reqs'] = 3 * profile.get('max_reqs', 8)
+    if rng.random() < 0.33 and profile.get('max_conns', 1) > 1:
+        prof['max_conns'] = 6
+    return prof
+
+
 def gen_scenario(rng, profile):
     """profile keys: kinds, invalid_rate, opaque_rate, unknown_unit_rate, multi_rate,
     broadcast_rate, max_conns, max_reqs, pipeline_rate, allow_tls, dsfault_rate, fcs"""
